@@ -242,6 +242,17 @@ def element(values, idx):
     return v
 
 
+def delta_ns(observed, expected):
+    """observed - expected in ns; "NaT" when either side is not a time (never raises)"""
+    try:
+        d = np.datetime64(observed, "ns") - np.datetime64(expected, "ns")
+        if np.isnat(d):
+            return "NaT"
+        return int(d / np.timedelta64(1, "ns"))
+    except (TypeError, ValueError, OverflowError):
+        return "NaT"
+
+
 def compare(exp, flat, disc, known_constant=None, frozen_dims=None):
     """compare Expected with the observed flat tree; returns (discrepancies, matched keys)"""
     out = []
@@ -283,13 +294,10 @@ def compare(exp, flat, disc, known_constant=None, frozen_dims=None):
             if not ok:
                 ctx = {"index": list(idx)}
                 if kind == "datetime64" and isinstance(obs, np.datetime64):
-                    ctx["delta_ns"] = int((obs.astype("datetime64[ns]") - value) / np.timedelta64(1, "ns"))
+                    ctx["delta_ns"] = delta_ns(obs, value)
                     # report every element whose offset differs from the first one as well
-                    deltas = {
-                        int((element(leaf.values, i).astype("datetime64[ns]") - v[0]) / np.timedelta64(1, "ns"))
-                        for i, v in elems.items()
-                    }
-                    ctx["all_deltas_ns"] = sorted(deltas)
+                    deltas = {delta_ns(element(leaf.values, i), v[0]) for i, v in elems.items()}
+                    ctx["all_deltas_ns"] = sorted(deltas, key=str)
                 out.append(disc("value", key, value, obs, **ctx))
                 break
     for key, value in exp.var_attrs.items():
